@@ -172,7 +172,9 @@ func (a *Allocator) TrimTo(max int) {
 			break
 		}
 		alloc += len(b)
-		if alloc < max {
+		// The first buffer is never released: Reset restarts allocation there, and a new buffer
+		// is sized from its predecessor.
+		if alloc < max || i == 0 {
 			continue
 		}
 		Free(b)
